@@ -237,6 +237,8 @@ func c09Err(msg string) string {
 		return "incomplete"
 	case strings.Contains(msg, "CRC32 mismatch"):
 		return "crc"
+	case strings.Contains(msg, "failed to rename snapshot directory"):
+		return "rename"
 	case strings.Contains(msg, "no full snapshot found"):
 		return "resolve"
 	}
@@ -377,13 +379,28 @@ func TestVerifC09(t *testing.T) {
 				}
 				switch {
 				case end < 6:
+					// one Close in six runs against a final name taken by a plain file: the rename fails
+					blocked := r.Chance(16)
+					if blocked {
+						if err := os.WriteFile(sink.snapDirPath, []byte("x"), 0o644); err != nil {
+							t.Fatal(err)
+						}
+					}
 					cerr := sink.Close()
+					if blocked {
+						os.Remove(sink.snapDirPath)
+					}
 					res := "ok"
 					if cerr != nil {
 						res = "err " + c09Err(cerr.Error())
 					}
-					e.emit(fmt.Sprintf("close %d", h), res)
-					e.hist = append(e.hist, "close:"+res)
+					if blocked {
+						e.emit(fmt.Sprintf("closerf %d", h), res)
+						e.hist = append(e.hist, "close(final rename fails):"+res)
+					} else {
+						e.emit(fmt.Sprintf("close %d", h), res)
+						e.hist = append(e.hist, "close:"+res)
+					}
 					if cerr == nil {
 						if walDir != "" && fnBefore {
 							sig := "incremental-accepted-while-full-needed"
